@@ -38,6 +38,17 @@ def seeds_for(pid):
             continue
         if pid in (meta.get("caught_by") or []):
             out.append((name, pp, meta))
+    # behaviour-preserving edits (/verif/neutral): the check must stay silent on them
+    try:
+        with open(os.path.join(extract.VERIF, "neutral", "INDEX.json")) as fh:
+            idx = json.load(fh)
+    except (OSError, ValueError):
+        idx = {}
+    for name in sorted(k for k in idx if not k.startswith("_")):
+        if pid in idx[name]:
+            pp = os.path.join(extract.VERIF, "neutral", name + ".diff")
+            if os.path.isfile(pp):
+                out.append(("neutral-" + name, pp, {"neutral": True}))
     return out
 
 
@@ -81,7 +92,7 @@ def run(pid, mod, known_keys, base_fail_keys, log=print):
     for name, patch, meta in seeds:
         tmp = tempfile.mkdtemp(prefix="vsa-selftest.")
         work = os.path.join(tmp, "repo")
-        res = {"seed": name, "applied": False, "flagged": False, "rules": []}
+        res = {"seed": name, "applied": False, "flagged": False, "rules": [], "neutral": bool(meta.get("neutral"))}
         try:
             _copy_tree(real_repo, work)
             r = subprocess.run(["git", "apply", "--whitespace=nowarn", patch], cwd=work, capture_output=True, text=True)
@@ -111,6 +122,10 @@ def run(pid, mod, known_keys, base_fail_keys, log=print):
         finally:
             shutil.rmtree(tmp, ignore_errors=True)
         results.append(res)
-        log("selftest %s: %s" % (name, "reported by " + ", ".join(res["rules"]) if res["flagged"] else
-                                 ("SELFTEST-MISS (applied, not reported)" if res["applied"] and "note" not in res else res.get("note", ""))))
+        if res["neutral"]:
+            log("selftest %s: %s" % (name, "SELFTEST-FALSE-ALARM (behaviour-preserving edit reported by %s)" % ", ".join(res["rules"]) if res["flagged"] else
+                                     ("silent, as it must be" if res["applied"] and "note" not in res else res.get("note", ""))))
+        else:
+            log("selftest %s: %s" % (name, "reported by " + ", ".join(res["rules"]) if res["flagged"] else
+                                     ("SELFTEST-MISS (applied, not reported)" if res["applied"] and "note" not in res else res.get("note", ""))))
     return results
